@@ -38,7 +38,7 @@ CONSTANTS
 (*   v              verifier-side statement: [n, cap, m, proms, seed, label, pgH, pgG, commit, cj] *)
 (***************************************************************************************************)
 SameV(mb) == [n |-> mb.n, t |-> mb.t, cap |-> mb.cap, proms |-> mb.proms, seed |-> mb.seed, label |-> mb.label,
-              pgH |-> 0, pgG |-> 0, commit |-> "same", cj |-> 0]
+              pgH |-> 0, pgG |-> mb.ppg, commit |-> "same", cj |-> 0]
 
 \* ---- prover ------------------------------------------------------------------------------------
 \* ideal reading of C06: the witness relation
@@ -64,7 +64,7 @@ Bound(n, t, m, label, pgH, pgG, commit, cj, proms) ==
 
 Prove(mb) ==
   IF PGuard(mb) # "ok" THEN [ok |-> FALSE]
-  ELSE [ok |-> TRUE, bound |-> Bound(mb.n, mb.t, mb.m, mb.label, 0, 0, "same", 0, mb.proms),
+  ELSE [ok |-> TRUE, bound |-> Bound(mb.n, mb.t, mb.m, mb.label, 0, mb.ppg, "same", 0, mb.proms),
         k |-> Log2(mb.n * mb.m), tag |-> mb.t, seed |-> mb.seed,
         \* a proof made without guards satisfies the relation exactly when value - promise is an n-bit number
         intact |-> (mb.wit.kind # "forge" \/ \A j \in 1..mb.m : U64Le(PVal(mb.proms[j]), mb.vals[j]) /\ U64Fits(U64Sub(mb.vals[j], PVal(mb.proms[j])), mb.n)),
@@ -207,4 +207,7 @@ Expect ==
   ELSE IF sc.mode = "RecoverOnly" /\ ~(WellShaped /\ BatchConsistent /\ AllValid)
        THEN [prove |-> "ok", verify |-> IF ~WellShaped \/ ~Decoded THEN "err" ELSE "any", masks |-> <<>>]
   ELSE [prove |-> "ok", verify |-> IF res = "Ok" THEN "ok" ELSE "err", masks |-> masks]
+\* C14: two runs that differ only in the witness (same commitments, same everything public, same external RNG stream)
+\* must not share any randomness-derived proof element
+ExpectDistinct == sc.samecommit
 ====
